@@ -322,7 +322,12 @@ func (w *worker[T, JobType]) processNextJob() error {
 		return nil
 	}
 
-	j.setAckId(ackId)
+	// only jobs taken from an acknowledging queue have an ack id. The handles of in-memory jobs are
+	// shared with the client, whose Close() reads the field: it must not be written for them
+	if ackId != "" {
+		j.setAckId(ackId)
+	}
+
 	dispatched = true
 
 	// then job will be process by the processSingleJob function inside spawnWorker
